@@ -65,7 +65,11 @@ macro_rules! compact_fns {
 			}));
 			let l = <Compact<$t> as CompactLen<$t>>::compact_len(&x);
 			let u = res_hex(catch_unwind(|| Compact(x).using_encoded(|b| b.to_vec())));
-			// oracle (C04): the advertised length equals the produced length
+			// oracle (C04): every way of asking for the length gives the produced length
+			let es = catch_unwind(|| (Compact(x).encoded_size(), parity_scale_codec::CompactRef(&x).encoded_size(), Compact(x).size_hint())).ok();
+			if a != "panic" && es.map(|e| (e.0, e.1)) != Some((a.len() / 2, a.len() / 2)) {
+				ctx.oracle_fail("C04", format!("Compact({}u{}): encoded_size = {:?} but the encoding {} has {} bytes", x, $w * 8, es, a, a.len() / 2));
+			}
 			if a != "panic" && a.len() / 2 != l {
 				ctx.oracle_fail("C04", format!("compact_len({}u{}) = {} but encoding is {}", x, $w * 8, l, a));
 			}
@@ -240,6 +244,11 @@ fn compact_stream(ctx: &mut Ctx) {
 	for _ in 0..n_rand {
 		let x = rng.biased(128) >> (rng.below(128) as u32);
 		cenc_all(ctx, "cenc-random", x);
+	}
+	for hi in [1u128, 2, 63, 64, 255, 256, 16383, 16384, 65535, 65536, (1 << 24) - 1, 1 << 24, (1 << 30) - 1, 1 << 30, u32::MAX as u128, 1 << 40, u64::MAX as u128] {
+		for lo in [0u128, 1, 0xffff_ffff, u64::MAX as u128] {
+			cenc_all(ctx, "cenc-halves", (hi << 64) | lo);
+		}
 	}
 
 	// decoders: exhaustive over all strings of length <= 2 (<= 3 for the 8/16-bit decoders in thorough)
@@ -1326,6 +1335,12 @@ fn big_stream(ctx: &mut Ctx) {
 	big_for::<(u8, u16), Vec<(u8, u16)>>(ctx, "Vec<(u8,u16)>");
 	big_for::<Option<u32>, Vec<Option<u32>>>(ctx, "Vec<Option<u32>>");
 	big_for::<(), Vec<()>>(ctx, "Vec<()>");
+	// node-based collections of variable-size entries with tag bytes, well over 4 KiB of output
+	big_for::<Option<u32>, LinkedList<Option<u32>>>(ctx, "LinkedList<Option<u32>>");
+	big_for::<(u32, Option<u8>), std::collections::BTreeMap<u32, Option<u8>>>(ctx, "BTreeMap<u32,Option<u8>>");
+	big_for::<Option<u16>, BTreeSet<Option<u16>>>(ctx, "BTreeSet<Option<u16>>");
+	big_for::<Vec<u8>, LinkedList<Vec<u8>>>(ctx, "LinkedList<Vec<u8>>");
+	big_for::<Option<u64>, std::collections::BinaryHeap<Option<u64>>>(ctx, "BinaryHeap<Option<u64>>");
 	// zero-sized in memory, one byte on the wire: every one of 50 000 elements is read and checked
 	big_for::<crate::derived::Marker, Vec<crate::derived::Marker>>(ctx, "Vec<Marker>");
 	big_for::<crate::derived::Marker, VecDeque<crate::derived::Marker>>(ctx, "VecDeque<Marker>");
@@ -2358,6 +2373,55 @@ fn count_extremes(ctx: &mut Ctx) {
 		}
 		ctx.count("countops:wide-read", 1);
 	}
+	// a growing input (a socket buffer): found empty by a read, refilled, read again through the SAME
+	// counting wrapper - the count follows what it delivered
+	{
+		use std::cell::RefCell;
+		use std::rc::Rc;
+		struct Growing {
+			data: Rc<RefCell<Vec<u8>>>,
+			pos: usize,
+		}
+		impl Input for Growing {
+			fn remaining_len(&mut self) -> Result<Option<usize>, parity_scale_codec::Error> {
+				Ok(Some(self.data.borrow().len() - self.pos))
+			}
+			fn read(&mut self, into: &mut [u8]) -> Result<(), parity_scale_codec::Error> {
+				let d = self.data.borrow();
+				if into.len() > d.len() - self.pos {
+					return Err("nothing there yet".into());
+				}
+				into.copy_from_slice(&d[self.pos..self.pos + into.len()]);
+				self.pos += into.len();
+				Ok(())
+			}
+		}
+		for probe_wide in [false, true] {
+			let shared = Rc::new(RefCell::new(vec![1u8, 2, 3]));
+			let mut gi = Growing { data: shared.clone(), pos: 0 };
+			let (ok, counts) = {
+				let mut ci = CountedInput::new(&mut gi);
+				let mut three = [0u8; 3];
+				let r1 = ci.read(&mut three).is_ok();
+				let r2 = if probe_wide {
+					let mut two = [0u8; 2];
+					ci.read(&mut two).is_ok()
+				} else {
+					ci.read_byte().is_ok()
+				};
+				let c1 = ci.count();
+				shared.borrow_mut().extend_from_slice(&[4, 5, 6, 7, 8, 9]);
+				let r3 = ci.read_byte().is_ok();
+				let mut four = [0u8; 4];
+				let r4 = ci.read(&mut four).is_ok();
+				((r1, r2, r3, r4), (c1, ci.count()))
+			};
+			if ok != (true, false, true, true) || counts != (3, 8) || gi.pos != 8 {
+				ctx.oracle_fail("C19", format!("CountedInput over an input that is found empty ({}), refilled and read again: results {:?}, counts {:?}, delivered {}", if probe_wide { "by a 2-byte read" } else { "by read_byte" }, ok, counts, gi.pos));
+			}
+		}
+		ctx.count("countops:refilled-input", 2);
+	}
 	// the wrapped input panics inside `read` on its k-th call; the unwind is caught and the count
 	// read afterwards: still the bytes delivered
 	let data: Vec<u8> = (0..40u8).collect();
@@ -2562,12 +2626,14 @@ pub fn sinks_case<T: Encode + ?Sized>(ctx: &mut Ctx, name: &str, v: &T, req: &st
 				if after_panic != a || outer != a || inner != a || s2 != vec![4u8, b'x'] || k != want_k {
 					let msg = format!("{}: using_encoded after an unwinding callback gives {}, re-entered gives {} / {}, expected {}", name, hex_or_dash(&after_panic), hex_or_dash(&outer), hex_or_dash(&inner), hex_or_dash(&a));
 					ctx.oracle_fail("C07", msg.clone());
+					ctx.oracle_fail("C06", msg.clone());
 					ctx.oracle_fail("C01", msg);
 				}
 			},
 			Err(_) => {
 				let msg = format!("{}: using_encoded panics when re-entered from its own callback or after a callback that unwound", name);
 				ctx.oracle_fail("C07", msg.clone());
+				ctx.oracle_fail("C06", msg.clone());
 				ctx.oracle_fail("C01", msg);
 			},
 		}
